@@ -381,8 +381,8 @@ func c06Suspended(r *harness.Run) {
 	if th {
 		order = append(order, "F-cond")
 	}
-	gens := map[string]Gen{"F-yieldacross": genYieldAcross()}
-	names := []string{"F-yieldacross"}
+	gens := map[string]Gen{"F-yieldacross": genYieldAcross(), "F-hostbody": genHostBody()}
+	names := []string{"F-yieldacross", "F-hostbody"}
 	for _, n := range order {
 		gens["S1/"+n] = mapGen(base[n], "S1/", suspendAtEmit(false))
 		names = append(names, "S1/"+n)
